@@ -5,6 +5,7 @@
 #define _GNU_SOURCE
 #include <link.h>
 #include <pthread.h>
+#include <unistd.h>
 #include "vtrace.h"
 
 /* ---- hash of the writable PT_LOAD segments of libh3.so ---- */
@@ -82,6 +83,15 @@ static void th_log(Th *th, int seq, int c, uint64_t dig, uint64_t gh) {
     th->len += (size_t)snprintf(th->buf + th->len, 4, "}\n");
 }
 static int g_cold = 0;
+/* a worker that has not finished 300 s after the join started is stuck inside a library call (a whole execution takes seconds):
+ * recorded as a Hang event, which no trace specification consumes, and the process ends */
+#include <time.h>
+static void join_or_hang(pthread_t th) {
+    struct timespec ts; clock_gettime(CLOCK_REALTIME, &ts); ts.tv_sec += 300;
+    if (pthread_timedjoin_np(th, NULL, &ts) == 0) return;
+    if (vt_out) { fputs("{\"e\":\"Hang\",\"how\":\"a concurrent call did not return within 300 s\"}\n", vt_out); fflush(vt_out); }
+    _exit(0);
+}
 static void *worker(void *arg) {
     Th *th = arg; uint64_t s = th->seed * 1315423911ULL + (uint64_t)th->t * 2654435761ULL; int seq = 0;
     pthread_barrier_wait(&bar);
@@ -116,7 +126,7 @@ static int cold_main(uint64_t seed, const char *refpath, const char *out) {
     pthread_barrier_init(&bar, NULL, (unsigned)T);
     fprintf(vt_out, "{\"e\":\"Round\",\"n\":0,\"T\":%d}\n", T);
     for (int t = 0; t < T; t++) { ctx[t] = (Th){t, T, 1, seed, NULL, 0, 0}; pthread_create(&th[t], NULL, worker, &ctx[t]); }
-    for (int t = 0; t < T; t++) pthread_join(th[t], NULL);
+    for (int t = 0; t < T; t++) join_or_hang(th[t]);
     for (int t = 0; t < T; t++) { fwrite(ctx[t].buf, 1, ctx[t].len, vt_out); free(ctx[t].buf); }
     /* and once more sequentially: state left behind by the concurrent phase */
     fprintf(vt_out, "{\"e\":\"Round\",\"n\":1,\"T\":1}\n");
@@ -141,7 +151,7 @@ int main(int argc, char **argv) {
         pthread_barrier_init(&bar, NULL, (unsigned)T);
         fprintf(vt_out, "{\"e\":\"Round\",\"n\":%d,\"T\":%d}\n", round, T);
         for (int t = 0; t < T; t++) { ctx[t] = (Th){t, T, 2, seed + (uint64_t)round * 131, NULL, 0, 0}; pthread_create(&th[t], NULL, worker, &ctx[t]); }
-        for (int t = 0; t < T; t++) pthread_join(th[t], NULL);
+        for (int t = 0; t < T; t++) join_or_hang(th[t]);
         pthread_barrier_destroy(&bar);
         for (int t = 0; t < T; t++) { fwrite(ctx[t].buf, 1, ctx[t].len, vt_out); free(ctx[t].buf); }
     }
